@@ -20,6 +20,11 @@ def emit(pairs, check_fn=None):
     lines = [lib.CASE_HEADER.format(imports="RepModel Routine Compile CompileTop DenSrc Checks", gen_imports="")]
     items = []
     for k, (case, imp) in enumerate(pairs):
+        if case.get("null_resource"):
+            # a resource declared without a value: the source is refused as a whole; it is never compiled with the resource
+            # silently left out (C10: every resource of the source is in the compiled hierarchy)
+            items.append("([], [1%nat])" if imp.get("ok") else "([], [0%nat])")
+            continue
         dl = case.get("derived_leaf")
         src = H.with_leaf_resource(case["routine"], dl) if dl else case["routine"]
         lines.append(f"Definition r{k} : routine := {H.routine_to_coq(src)}.")
